@@ -6,7 +6,7 @@
 EXTENDS ObsBase
 Ids == 1..16
 \* operations with the obligation (C20's list); lock entry/exit, spawn, cancel and probes are synchronous
-Obliged == {"instant", "sleep", "fset", "await_f", "await_c", "await_t", "put", "get", "qclose",
+Obliged == {"instant", "sleep", "fset", "await_f", "await_c", "await_t", "await_s", "await_lvl", "put", "get", "qclose",
             "cput", "cget", "cclose", "borrow", "claim", "inc", "dec", "rset", "tset", "transfer",
             "tick", "flow"}
 VARIABLES tid, l, spin, owe, plain, bad
